@@ -66,7 +66,7 @@ def run(ctx):
 
     # whole tool: every spelling of a nil / length check, in conditional and short-circuit positions
     nsp, sp_bad, sp_samples, sp_src = spellings.run_suite(ctx)
-    ctx.obligation("whole tool: %d generated functions (4 nil spellings x negation depth 0-2 x 8 positions; 24 length spellings x negation x 5 positions): "
+    ctx.obligation("whole tool: %d generated functions (4 nil spellings x negations and comparisons with boolean constants x 14 positions incl. value expressions followed by a use; 24 length spellings x negation x 9 positions): "
                    "the dereference is reported iff the check does not protect it" % nsp, nsp > 0 and not sp_bad)
     ctx.coverage["evaluations"] += nsp
     ctx.coverage["distinct_nontrivial"] += nsp
